@@ -253,7 +253,7 @@ class RefRT(object):
             tag = ("err", l[1], leaf.inst)
             leaf.outcome = ("exc", lang.make_user_exc(l[2], tag))
         elif kind == "lazy":
-            if l[2] == "ok":
+            if l[2] in ("ok", "sync"):
                 leaf.outcome = ("val", ("lazy", l[1], leaf.inst))
             else:
                 leaf.outcome = ("exc", UserErr(("lazy", l[1], leaf.inst)))
